@@ -33,11 +33,19 @@ func readOpt(p string) ([]byte, bool) {
 }
 
 // cutReader delivers the first k bytes, then EOF (the connection died)
+// cutConn delivers a stream that ends at the cut; like a TCP connection it may hand over less than a Read asks for:
+// at most max bytes per call when max > 0 (segment boundaries fall anywhere, also inside a header)
 type cutConn struct {
-	r *bytes.Reader
+	r   *bytes.Reader
+	max int
 }
 
-func (c *cutConn) Read(p []byte) (int, error)  { return c.r.Read(p) }
+func (c *cutConn) Read(p []byte) (int, error) {
+	if c.max > 0 && len(p) > c.max {
+		p = p[:c.max]
+	}
+	return c.r.Read(p)
+}
 func (c *cutConn) Write(p []byte) (int, error) { return len(p), nil }
 
 func genC09(cs *CaseSet, rng *Rng, tier string, dir string) {
@@ -124,7 +132,12 @@ func genC09(cs *CaseSet, rng *Rng, tier string, dir string) {
 					full, _ := hotline.ReadPath(ft.FileRoot, ft.FilePath, ft.FileName)
 					func() {
 						defer func() { recover() }()
-						hotline.UploadHandler(&cutConn{r: bytes.NewReader(stream[16:k])}, full, ft, env.Srv.FS, discardLogger, false)
+						// every other transfer arrives in small segments (1 .. 90 bytes per read)
+						seg := 0
+						if rng.Bool() {
+							seg = rng.Pick(1, 5, 17, 90)
+						}
+						hotline.UploadHandler(&cutConn{r: bytes.NewReader(stream[16:k]), max: seg}, full, ft, env.Srv.FS, discardLogger, false)
 					}()
 					env.Srv.FileTransferMgr.Delete(rr)
 				}
